@@ -214,6 +214,16 @@ func main() {
 	for _, er := range rr.Errors {
 		fmt.Println("TOOL-ERROR", er)
 	}
+	{
+		rs := append([]*OblResult{}, rr.Results...)
+		sort.Slice(rs, func(i, j int) bool { return rs[i].Secs > rs[j].Secs })
+		for i, r := range rs {
+			if i >= 8 || r.Secs < 1.0 {
+				break
+			}
+			fmt.Printf("SLOW     %.1fs %s\n", r.Secs, r.Name)
+		}
+	}
 	fmt.Printf("functions=%d obligations=%d proved=%d failed=%d paths=%d queries=%d load=%.1fs gen=%.1fs solve=%.1fs\n",
 		len(rr.Funcs), len(rr.Results), proved, failed, rr.Paths, rr.Solver.nQueries, rr.LoadSecs, rr.GenSecs, rr.SolveSecs)
 	if cfg.Verbose {
